@@ -5,7 +5,8 @@
    tx, block, extended and unknown commands, repeated and out-of-order version/verack).
    "Reaches the repository / tx manager / address book" are the guarded effects; "selected to
    serve requests" is the ready flag (NodeManager.nextNode skips nodes that are not ready). *)
-From BR Require Import Base.Prelude Gen.Consts Net.NodeFSM Net.NodeProofs.
+From Coq Require Import String.
+From BR Require Import Base.Prelude Gen.Consts Gen.Handlers Net.NodeFSM Net.NodeProofs.
 Open Scope N_scope.
 
 (* for every interleaving from a fresh connection, a step taken while the peer is not verified
@@ -55,6 +56,28 @@ Theorem C13_wrong_chain_disconnects : forall s count first all_ok, n_stopped s =
   n_verified s1 = n_verified s /\ n_ready s1 = false /\ n_stopped s1 = true /\ In EStop es.
 Proof. exact foreign_reply_disconnects. Qed.
 Print Assumptions C13_wrong_chain_disconnects.
+
+(* the tie between the model's "only when ready" and the source: Gen/Handlers.v is regenerated on
+   every run from every assignment to a node's handler table in /repo.  The handlers through
+   which peer data reaches the header repository, the address book and the tx manager are
+   registered in accept() and nowhere else; the constructor registers exactly the handshake /
+   verification set; the block handler is registered by RequestBlock only (a request is made only
+   to nodes the manager selected, i.e. ready ones); the remaining entries install caller-supplied
+   handlers (SetBlockHandler / SetTxHandler, not used by the reader itself). *)
+Definition guarded_handlers : list string :=
+  ["handleHeadersTrack"; "handleAddress"; "handlePong"; "handleGetAddresses"; "handleInventory"; "handleTx"]%string.
+Definition memS (x : string) (l : list string) : bool := existsb (String.eqb x) l.
+
+Theorem C13_handler_table :
+  forallb (fun r => let '(fn, cmd, h) := r in
+             (negb (memS h guarded_handlers) || String.eqb fn "accept") &&
+             (negb (String.eqb h "handleBlock") || String.eqb fn "RequestBlock")) handler_registrations = true /\
+  map (fun r => snd (fst r)) (filter (fun r => String.eqb (fst (fst r)) "NewBitcoinNode") handler_registrations) =
+    ["CmdVersion"; "CmdVerAck"; "CmdHeaders"; "CmdProtoconf"; "CmdPing"; "CmdReject"; "CmdExtended"]%string /\
+  map (fun r => fst (fst r)) (filter (fun r => negb (memS (fst (fst r)) ["NewBitcoinNode"; "accept"; "RequestBlock"]%string)) handler_registrations) =
+    ["SetBlockHandler"; "SetTxHandler"]%string.
+Proof. vm_compute. repeat split; reflexivity. Qed.
+Print Assumptions C13_handler_table.
 
 (* non-vacuity: a session that verifies, and one in which noise arrives first and nothing happens *)
 Example C13_example :
